@@ -4,7 +4,7 @@ CG = dict(units=["type.c"], mode="dfcc", enforce="gen_expr", rec=True, replace=[
 META = dict(
     level="proof",
     claim="The emitted compare-and-swap and exchange sequences, executed on the ghost x86 machine for every object size, address, memory content and operand: exactly one locked read-modify-write instruction touches the object; CAS succeeds iff the object equals the expected value (at the object's width), then stores the new value, otherwise leaves the object unchanged and writes its current value into the expected-value object; exchange stores the new value and returns the previous contents as a value of the object's type; nothing else is written and the stack is balanced. Sequential semantics only.",
-    note="Assumed: a lock-prefixed cmpxchg and xchg-with-memory are atomic on x86-64 (that is what makes the sequential facts imply linearizability); interleavings themselves are outside contract-based sequential verification. op= on an atomic object (integer or pointer) is rewritten to the compare-exchange retry loop with the original operator, and add_type converts the value operands of both primitives to the object's type. Not covered: stdatomic.h macros, atomic members (A.x op= is handled before the atomic check).",
+    note="Assumed: a lock-prefixed cmpxchg and xchg-with-memory are atomic on x86-64 (that is what makes the sequential facts imply linearizability); interleavings themselves are outside contract-based sequential verification. op= on an atomic object (integer or pointer) is rewritten to the compare-exchange retry loop with the original operator, and add_type converts the value operands of both primitives to the object's type. An _Atomic struct member takes the same retry-loop form. Not covered: stdatomic.h macros (atomic_fetch_* return the new value: seen, not repaired), atomic floating objects (op= does not terminate: seen, not repaired), atomic bit-fields.",
     functions=["codegen.c:gen_expr", "codegen.c:reg_ax", "codegen.c:reg_dx", "codegen.c:load", "parse.c:to_assign", "type.c:add_type"],
     trusted_base=["CBMC 6.11", "spec/x86_ghost.h", "x86-64 atomicity of lock cmpxchg / xchg"],
     assumptions=["operands are abstract side-effect-free expressions", "lock-prefixed RMW instructions are atomic"],
